@@ -43,6 +43,15 @@ ALIAS_FUNCS = {
 }
 SHALLOW_FUNCS = {"evolve", "list", "tuple", "dict", "sorted", "set", "copy", "asdict", "chain", "filter", "map"}
 INPLACE_FUNCS = {"fill_diagonal", "put", "place", "copyto", "putmask", "shuffle", "put_along_axis"}
+# calls that set interpreter- or library-wide state (numpy error mode / print options, warning filters outside a
+# catch_warnings block, working directory, environment, locale, recursion limit, RNG seeds, decimal context)
+PROCESS_GLOBAL_CALLS = {
+    "seterr", "seterrcall", "set_printoptions", "setbufsize", "set_string_function", "simplefilter", "filterwarnings",
+    "resetwarnings", "chdir", "putenv", "unsetenv", "umask", "setrecursionlimit", "setswitchinterval", "setlocale",
+    "setcontext", "seed", "setdefaultencoding", "set_int_max_str_digits", "setprofile", "settrace",
+}
+PROCESS_GLOBAL_OBJECTS = ("os.environ", "sys.path", "sys.modules", "sys.argv", "warnings.filters", "sys.stdout", "sys.stderr")
+MEMO_DECORATORS = ("lru_cache", "cache", "functools.lru_cache", "functools.cache")
 
 ORDER = {"fresh": 0, "shallow": 1, "gshallow": 2, "arg": 3, "glob": 4}
 
@@ -132,6 +141,7 @@ class Package:
                                 mutable.add(t.id)
                 elif isinstance(node, (ast.FunctionDef, ast.AsyncFunctionDef)):
                     self._add_func(mod, node.name, node, None)
+                    mutable.add(node.name)  # a function object carries attributes: shared state like a class
                 elif isinstance(node, ast.ClassDef):
                     mutable.add(node.name)
                     for sub in node.body:
@@ -389,6 +399,28 @@ class Analyzer:
             env[p] = join(env.get(p, "fresh"), "glob")
         for p in f.params:
             env.setdefault(p, "fresh")
+        # a mutable default value is one object shared by all calls
+        a = f.node.args
+        pos = a.posonlyargs + a.args
+        for prm, dflt in list(zip(pos[len(pos) - len(a.defaults):], a.defaults)) + [
+                (k, d) for k, d in zip(a.kwonlyargs, a.kw_defaults) if d is not None]:
+            if isinstance(dflt, (ast.Dict, ast.List, ast.Set, ast.ListComp, ast.DictComp, ast.SetComp)) or (
+                    isinstance(dflt, ast.Call) and ast.unparse(dflt.func).split(".")[-1] in (
+                        "dict", "list", "set", "defaultdict", "OrderedDict", "zeros", "empty", "array", "deque")):
+                env[prm.arg] = join(env[prm.arg], "glob")
+        # calls lexically inside `with warnings.catch_warnings(...)`: the filter list is restored on exit
+        self.cw_exempt = set()
+        for w in ast.walk(f.node):
+            if isinstance(w, (ast.With, ast.AsyncWith)) and any(
+                    isinstance(it.context_expr, ast.Call) and ast.unparse(it.context_expr.func).endswith("catch_warnings")
+                    for it in w.items):
+                for n in ast.walk(w):
+                    if isinstance(n, ast.Call):
+                        self.cw_exempt.add(id(n))
+        for d in f.node.decorator_list:
+            dn = ast.unparse(d.func if isinstance(d, ast.Call) else d)
+            if dn in MEMO_DECORATORS or dn.split(".")[-1] in ("lru_cache", "cache"):
+                self.sites.add(Site(f.module, f.qual, "memoised:" + dn.split(".")[-1], "glob", f.qual, f.node.lineno))
         self.ret = "fresh"
         self.run_block(f, f.node.body, env, True)
         if ORDER[self.ret] > ORDER[f.returns]:
@@ -528,6 +560,15 @@ class Analyzer:
                     self.sites.add(Site(f.module, f.qual, "global-stmt", "glob", n, node.lineno))
             elif isinstance(node, ast.Call):
                 fn = node.func
+                pg = fn.attr if isinstance(fn, ast.Attribute) else (fn.id if isinstance(fn, ast.Name) else None)
+                if pg in PROCESS_GLOBAL_CALLS and not (
+                        pg in ("simplefilter", "filterwarnings", "resetwarnings") and id(node) in self.cw_exempt):
+                    if not (isinstance(fn, ast.Name) and self.pkg.resolve_call(f.module, fn)):
+                        self.sites.add(Site(f.module, f.qual, "process-global:" + pg, "glob",
+                                            ast.unparse(fn)[:120], node.lineno))
+                if isinstance(fn, ast.Attribute) and fn.attr in MUTATORS and ast.unparse(fn.value).startswith(PROCESS_GLOBAL_OBJECTS):
+                    self.sites.add(Site(f.module, f.qual, "process-global:" + fn.attr, "glob",
+                                        ast.unparse(fn.value)[:120], node.lineno))
                 if isinstance(fn, ast.Attribute):
                     recv = self.root(f, env, fn.value)
                     if fn.attr in MUTATORS and recv in ("arg", "glob"):
@@ -547,6 +588,9 @@ class Analyzer:
                             self.site(f, "out-kw", r, k.value, node)
 
     def store(self, f, env, target, kind):
+        if isinstance(target, (ast.Subscript, ast.Attribute)) and ast.unparse(target).startswith(PROCESS_GLOBAL_OBJECTS):
+            self.site(f, "process-global:" + kind, "glob", target, target)
+            return
         if isinstance(target, ast.Subscript):
             r = self.root(f, env, target.value)
             if r in ("arg", "glob"):
